@@ -254,8 +254,11 @@ IRegen(g, tr, s, arg, scr, path) ==
     [] G.kind = "cond" ->
          LET rt == IRegen(G.t, tr.t, s, arg[2], scr, path)
              rf == IRegen(G.f, tr.f, s, arg[2], scr, path)
+             (* each branch weight is relative to that branch's own old trace; across a flip the old visible score replaces
+                the old score of the newly visible branch (after the repair)                                              *)
+             oldNew == IF arg[1] = 1 THEN Score(tr.t) ELSE Score(tr.f)
          IN [tr |-> [k |-> "c", chk |-> arg[1], t |-> rt.tr, f |-> rf.tr, arg |-> arg],
-             w |-> IF arg[1] = 1 THEN rt.w ELSE rf.w, d |-> WhereD(tr.chk, rt.d, rf.d)]
+             w |-> (IF arg[1] = 1 THEN rt.w ELSE rf.w) + Score(tr) - oldNew, d |-> WhereD(tr.chk, rt.d, rf.d)]
 
 -----------------------------------------------------------------------------
 (* ----------------------------- Contract: denotational density ----------------------------- *)
